@@ -17,10 +17,18 @@ namespace {
 struct Payload {
   int canary = 0x600D;
   int tag = -1;
-  Payload() {}
-  explicit Payload(int t) : tag(t) {}
-  Payload(const Payload& o) : canary(o.canary), tag(o.tag) {}
+  Payload() {
+    raceW(this, "future-result");
+  }
+  explicit Payload(int t) : tag(t) {
+    raceW(this, "future-result");
+  }
+  Payload(const Payload& o) : canary(o.canary), tag(o.tag) {
+    raceR(&o, "future-result");
+    raceW(this, "future-result");
+  }
   ~Payload() {
+    raceW(this, "future-result");
     canary = 0xDEAD;
   }
 };
@@ -40,7 +48,7 @@ static const char* polName(bool async, bool deferred) {
 struct FRun {
   int funcRuns = 0;
   int funcTid = -1;
-  bool funcDone = false;
+  DoneFlag funcDone;
   int sched = 0;
   bool async = false, deferred = false;
   bool throws = false;
@@ -49,7 +57,7 @@ static FRun* gf;
 
 static void futHang(char* buf, size_t n) {
   snprintf(buf, n, "[sched=%s policy=%s functor-runs=%d done=%d]", schedName(gf->sched), polName(gf->async, gf->deferred),
-           gf->funcRuns, gf->funcDone);
+           gf->funcRuns, (int)gf->funcDone.v);
 }
 
 template <typename S>
@@ -82,13 +90,14 @@ static void getterOps(dispenso::Future<Payload> f, FRun& r, const Payload** seen
       case 0: { // get
         try {
           const Payload& p = f.get();
+          raceR(&p, "future-result");
           if (r.throws) {
             snprintf(cls, sizeof cls, "%s:%s:exception-lost", schedName(r.sched), polName(r.async, r.deferred));
             sim_fail(cls, "get() returned a value although the functor threw");
           }
           if (!r.funcDone || p.canary != 0x600D || p.tag != 4242) {
             snprintf(cls, sizeof cls, "%s:%s:result-mismatch", schedName(r.sched), polName(r.async, r.deferred));
-            sim_fail(cls, "get() returned before the functor finished or a damaged value (done=%d canary=%x tag=%d)", r.funcDone,
+            sim_fail(cls, "get() returned before the functor finished or a damaged value (done=%d canary=%x tag=%d)", (int)r.funcDone.v,
                      p.canary, p.tag);
           }
           if (*seen && *seen != &p) {
@@ -108,7 +117,7 @@ static void getterOps(dispenso::Future<Payload> f, FRun& r, const Payload** seen
         f.wait();
         if (!r.funcDone || !f.is_ready()) {
           snprintf(cls, sizeof cls, "%s:%s:wait-returned-early", schedName(r.sched), polName(r.async, r.deferred));
-          sim_fail(cls, "wait() returned with functor done=%d is_ready=%d", r.funcDone, f.is_ready());
+          sim_fail(cls, "wait() returned with functor done=%d is_ready=%d", (int)r.funcDone.v, f.is_ready());
         }
         break;
       case 2: { // wait_for
@@ -234,7 +243,7 @@ static void wlFuture() {
 // C19: then / when_all / when_any
 // ---------------------------------------------------------------------------------------------
 struct Src {
-  bool done = false;
+  DoneFlag done;
   int runs = 0;
 };
 
@@ -430,7 +439,7 @@ static void wlWhen() {
     for (int i = 0; i < n; ++i) {
       if (!srcs[(size_t)i].done || !vec[(size_t)i].is_ready() || vec[(size_t)i].get() != 100 + i) {
         snprintf(cls, sizeof cls, "when_all-iter:%s", !srcs[(size_t)i].done ? "ready-before-inputs" : "wrong-order");
-        sim_fail(cls, "when_all result ready but input %d done=%d", i, srcs[(size_t)i].done);
+        sim_fail(cls, "when_all result ready but input %d done=%d", i, (int)srcs[(size_t)i].done.v);
       }
     }
   } else if (kind == 1 || kind == 5) {
